@@ -159,7 +159,6 @@ pub fn c14_t_change_real_layout() {
 
 /// Thorough: the same after a symbolic four-event history (all 124^4 x 3^4 histories in one query).
 #[kani::proof]
-#[kani::unwind(300)]
 pub fn c14_t_after_four_events() {
     let calls = Cell::new(0);
     let m0 = any_mods();
